@@ -164,6 +164,54 @@ def _ttl_string(lex, st, n3=False):
     return q + "".join(out) + q
 
 
+def find_lists(triples, all_quads):
+    """well-formed rdf:Lists inside `triples` (one graph) that may be written with the list abbreviation: head -> (members, cells).
+    A cell is a blank node with exactly one rdf:first and one rdf:rest and nothing else as subject, referenced exactly once in the
+    whole document (by the statement that has the list as object, or by the previous cell)."""
+    FIRST, REST, NIL = RDF + "first", RDF + "rest", RDF + "nil"
+    by_s = {}
+    for s_, p_, o_ in triples:
+        by_s.setdefault(json.dumps(s_), []).append((p_, o_))
+    refs = {}
+    for q in all_quads:
+        for pos, t in enumerate(q):
+            if t is not None and t[0] == "b" and pos != 0:
+                refs[t[1]] = refs.get(t[1], 0) + 1
+    subj_occ = {}
+    for q in all_quads:
+        if q[0][0] == "b":
+            subj_occ[q[0][1]] = subj_occ.get(q[0][1], 0) + 1
+
+    def cell(b):
+        po = by_s.get(json.dumps(b), [])
+        if b[0] != "b" or len(po) != 2 or subj_occ.get(b[1]) != 2 or refs.get(b[1]) != 1:
+            return None
+        f = [o for p, o in po if p[1] == FIRST]
+        r = [o for p, o in po if p[1] == REST]
+        return (f[0], r[0]) if len(f) == 1 and len(r) == 1 else None
+
+    rest_targets = {json.dumps(o) for po in by_s.values() for p, o in po if p[1] == REST}
+    out = {}
+    for k in by_s:
+        b = json.loads(k)
+        if b[0] != "b" or k in rest_targets or cell(b) is None:
+            continue
+        members, cells, cur, ok = [], [], b, True
+        while True:
+            c = cell(cur)
+            if c is None or cur[1] in {x[1] for x in cells}:
+                ok = False
+                break
+            members.append(c[0])
+            cells.append(cur)
+            if c[1] == ["u", NIL]:
+                break
+            cur = c[1]
+        if ok:
+            out[b[1]] = (members, cells)
+    return out
+
+
 class _Ttl:
     def __init__(self, st, quads, trig, n3=False, ext_base=None):
         self.st = st
@@ -172,6 +220,7 @@ class _Ttl:
         self.prefixes = {}  # ns -> prefix
         self.base = None
         self.ext_base = ext_base  # a base the caller of parse() supplies (publicID): the document does not declare it
+        self.all_quads = quads
         # blank nodes that can be written without a label: used once, as an object only ([]), or as the subject of statements
         # of one graph only and nowhere else ([] p o ; ...)
         occ = {}
@@ -238,6 +287,11 @@ class _Ttl:
                     return p + ":"
         if self.base and iri.startswith(self.base) and st.random() < 0.6:
             return "<" + iri[len(self.base) :] + ">"
+        if self.base and self.base.count("/") >= 4 and self.base.endswith("/") and st.random() < 0.4:
+            # a reference that climbs out of the base's directory: ../x (also up to the root directory)
+            parent = self.base[: self.base.rstrip("/").rfind("/") + 1]
+            if iri.startswith(parent) and not iri.startswith(self.base) and len(iri) > len(parent):
+                return "<../" + iri[len(parent) :] + ">"
         if self.base and st.random() < 0.25:
             # absolute-path and network-path references (resolved against scheme / authority of the base)
             k = self.base.find("/", 8)
@@ -251,6 +305,8 @@ class _Ttl:
         if t[0] == "u":
             return self.iri(t[1], predicate)
         if t[0] == "b":
+            if position == "o" and t[1] in getattr(self, "lists_now", {}):
+                return "( " + " ".join(self.term(m) for m in self.lists_now[t[1]]) + " )" if self.lists_now[t[1]] else "()"
             if self.use_anon and ((position == "o" and t[1] in self.anon_obj) or (position == "s1" and t[1] in self.anon_subj)) and st.random() < 0.7:
                 return st.choice(["[]", "[ ]"])
             return "_:" + t[1]
@@ -275,6 +331,15 @@ class _Ttl:
     def block(self, triples, indent=""):
         """triples: list of (s,p,o) -> statements with ; and , abbreviations"""
         st = self.st
+        self.lists_now = {}
+        if getattr(self, "all_quads", None) is not None and not self.n3:
+            found = find_lists(triples, self.all_quads)
+            for head, (members, cells) in found.items():
+                here = any(t[2] == ["b", head] for t in triples)  # (the statement that has the list as its object is in this block)
+                if here and st.random() < 0.75 and not any(m[0] == "b" for m in members):
+                    self.lists_now[head] = members
+                    gone = {c[1] for c in cells}
+                    triples = [t for t in triples if not (t[0][0] == "b" and t[0][1] in gone)]
         by_s = {}
         order = []
         for s, p, o in triples:
@@ -511,10 +576,19 @@ def write_jsonld(quads, style=None, ext_base=None):
 
     def nodes(ts):
         by = {}
+        lists = {}
+        if style is not None:
+            for head, (members, cells) in find_lists(ts, quads).items():
+                if any(o == ["b", head] for _, _, o in ts) and not any(m[0] == "b" for m in members) and _st(style).random() < 0.8:
+                    lists[head] = members
+                    gone = {c[1] for c in cells}
+                    ts = [t for t in ts if not (t[0][0] == "b" and t[0][1] in gone)]
         for s, p, o in ts:
             n = by.setdefault(ident(s), {"@id": ident(s)})
             if p[1] == RDF + "type" and o[0] in ("u", "b"):
                 n.setdefault("@type", []).append(tident(o))
+            elif o[0] == "b" and o[1] in lists:
+                n.setdefault(p[1], []).append({"@list": [obj(m) for m in lists[o[1]]]})
             else:
                 n.setdefault(p[1], []).append(obj(o))
         return list(by.values())
